@@ -38,7 +38,15 @@ func (x *Exec) libStub(fn *ssa.Function, args []Val, site string) (Val, bool) {
 				return TupleV{x.convert(cstr("[]"), types.Typ[types.String], types.NewSlice(types.Typ[types.Byte])), IfaceV{}}, true
 			}
 		}
-		panic(unsupported{"encoding/json.Marshal of a non-empty value"})
+		// any other concrete value: the real encoding/json natively
+		if nv, ok := x.toNative(iv); ok {
+			if out, err := json.Marshal(nv); err == nil {
+				x.stubsUsed["encoding/json.Marshal (real encoding/json, natively, on concrete values)"] = true
+				return TupleV{x.convert(cstr(string(out)), types.Typ[types.String], types.NewSlice(types.Typ[types.Byte])), IfaceV{}}, true
+			}
+			return TupleV{SliceV{}, x.opaqueErr()}, true
+		}
+		panic(unsupported{"encoding/json.Marshal of a non-empty value that is not concrete"})
 	case "encoding/json.Valid":
 		// the real encoding/json, natively, on the concretised text
 		bs := types.NewSlice(types.Typ[types.Byte])
